@@ -35,12 +35,21 @@ func c16Sandbox() (string, error) {
 	if c16Dir != "" {
 		return c16Dir, nil
 	}
-	d, err := os.MkdirTemp("", "c16")
-	if err != nil {
+	// one directory shared by all processes and runs; files are put in place atomically
+	d := filepath.Join(os.TempDir(), "verif-c16-sandbox")
+	if err := os.MkdirAll(d, 0o755); err != nil {
 		return "", err
 	}
 	for i, n := range []int{0, 1, 100, 65536} {
-		if err := os.WriteFile(filepath.Join(d, fmt.Sprintf("f%d", i)), bytes.Repeat([]byte{'b'}, n), 0o644); err != nil {
+		p := filepath.Join(d, fmt.Sprintf("f%d", i))
+		if fi, err := os.Stat(p); err == nil && fi.Size() == int64(n) {
+			continue
+		}
+		tmp := fmt.Sprintf("%s.%d", p, os.Getpid())
+		if err := os.WriteFile(tmp, bytes.Repeat([]byte{'b'}, n), 0o644); err != nil {
+			return "", err
+		}
+		if err := os.Rename(tmp, p); err != nil {
 			return "", err
 		}
 	}
